@@ -45,7 +45,9 @@ func New() Queue {
       m.Unlock()
     }
     verifhook.Point("queue.input_closed")
+    m.Lock()
     closed = true
+    m.Unlock()
   }()
   go func() {
     defer close(o.output)
